@@ -199,9 +199,19 @@ def classify (c : Ctx) (e : Event) (cands : List (RState × XOut)) : List String
 failure): many expired-but-unreaped entries make the set of possible victims large -/
 def candLimit : Nat := 400
 
+/-- calls of ut_map/ut_set that start with the purge -/
+def purges : Op → Bool
+  | .insert .. | .insertRange .. | .find .. | .findRange .. | .findCount .. | .erase .. | .eraseRange .. | .clean => true
+  | _ => false
+
 def loop (c : Ctx) : List RState → Nat → List Event → Nat → Option Fail × Nat
   | _, _, [], mx => (none, mx)
   | cs, idx, e :: es, mx =>
+    -- C02, ut_map/ut_set clause, checked on the implementation's own observations: right after a call
+    -- that purges, size() is the number of live keys
+    if c.fl == .eager && purges e.op && e.obs.size != e.obs.sweep.length then
+      (some ⟨idx, ["C02"], s!"eager-size-live size={e.obs.size} live={e.obs.sweep.length}"⟩, mx)
+    else
     let cands := cs.flatMap (fun s => succ c s e.now e.op)
     let keep := dedup ((cands.filter (fun (s, x) => outOk x e.out && obsOk c s e.now e.obs)).map (·.1))
     if keep.isEmpty then
